@@ -1,3 +1,54 @@
-import TbbVerif.Model.C05
+/-
+C05 — helper lemmas (umbrella): see Proofs/C05/*.lean
+  Float.lean     rounding model `fl`: error bound, exactness on small integers
+  PropSplit.lean the float proportional split stays strictly inside
+  Tree.lean      legal split trees, range laws, leaves tile
+  Range1.lean    blocked_range satisfies the range laws
+  RangeN.lean    blocked_range2d/3d/nd satisfy the range laws (dimension selection)
+  Part.lean      partition-object invariant
+  Task.lean      one task / the task tree, for every environment
+  Simple.lean    chunk-size bounds of simple_partitioner
+  RV.lean        the range_vector ring refines a list
+-/
+import TbbVerif.Proofs.C05.Task
+import TbbVerif.Proofs.C05.Range1
+import TbbVerif.Proofs.C05.RangeN
+import TbbVerif.Proofs.C05.Simple
+import TbbVerif.Proofs.C05.RV
+
 namespace TbbVerif.C05
+
+theorem strided_mem (first last step : Nat) (hs : 1 ≤ step) (v : Nat) :
+    (∃ i, i < stridedEnd first last step ∧ stridedIndex first step i = v) ↔
+      (first ≤ v ∧ v < last ∧ (v - first) % step = 0) := by
+  unfold stridedEnd stridedIndex
+  constructor
+  · rintro ⟨i, hi, rfl⟩
+    split at hi
+    · rename_i hfl
+      have h1 : i ≤ (last - first - 1) / step := by omega
+      have h2 : i * step ≤ last - first - 1 := (Nat.le_div_iff_mul_le (by omega)).1 h1
+      refine ⟨by omega, by omega, ?_⟩
+      have : first + i * step - first = i * step := by omega
+      rw [this]; exact Nat.mul_mod_left _ _
+    · omega
+  · rintro ⟨h1, h2, h3⟩
+    have hfl : first < last := by omega
+    rw [if_pos hfl]
+    refine ⟨(v - first) / step, ?_, ?_⟩
+    · have hdm := Nat.div_add_mod (v - first) step
+      rw [h3] at hdm
+      have h4 : (v - first) / step * step ≤ last - first - 1 := by
+        rw [Nat.mul_comm]; omega
+      have := (Nat.le_div_iff_mul_le (by omega : 0 < step)).2 h4
+      omega
+    · have hdm := Nat.div_add_mod (v - first) step
+      rw [h3] at hdm
+      rw [Nat.mul_comm]; omega
+
+theorem strided_inj (first step i j : Nat) (hs : 1 ≤ step) (h : stridedIndex first step i = stridedIndex first step j) : i = j := by
+  unfold stridedIndex at h
+  have : i * step = j * step := by omega
+  exact Nat.eq_of_mul_eq_mul_right (by omega) this
+
 end TbbVerif.C05
